@@ -559,8 +559,10 @@ int expr_sup_enumred(expr * value, int * result)
 
         expr_delete(left_value);
     }
-    else if (value->left->type == EXPR_ENUMTYPE)
+    else if (value->left->type == EXPR_ENUMTYPE && *result != ENUMRED_FAIL)
     {
+        /* not after a failed reduction: on a cyclic reference the callers up
+         * the recursion still hold the node that would be released here */
         expr * left_value = value->left;
 
         value->type = EXPR_ENUMTYPE;
